@@ -799,6 +799,10 @@ class WorkflowDatabaseManager:
         """Recover public database from private database."""
         if self.pub_dao.n_tries >= self.pub_dao.MAX_TRIES:
             self.copy_pri_to_pub()
+            # The copy already holds everything the public DAO was still
+            # trying to write: do not write it again on top of the copy
+            # (this would e.g. duplicate rows in tables without primary key).
+            self.pub_dao.pending_sql_queue = []
             LOG.warning(
                 f"{self.pub_dao.db_file_name}: recovered from "
                 f"{self.pri_dao.db_file_name}")
